@@ -239,6 +239,24 @@ def check(ctx, rep):
                     "; ".join(problems) if problems else "events: " + " < ".join(names or ["(none)"]),
                     key=f"R19b|{dropper.qualname}|" + ("; ".join(sorted(set(problems))) if problems else inst))
 
+    # ------------------------------------------------------------------ R19b (deferred actions)
+    init_mod_ = prog.modules.get("pygopherd.initialization")
+    for f_ in (list(init_mod_.functions.values()) if init_mod_ else []):
+        for loop in [n for n in ast.walk(f_.node) if isinstance(n, ast.For)]:
+            loopvars = {x.id for x in ast.walk(loop.target) if isinstance(x, ast.Name)}
+            # ... and what the loop body assigns on each turn
+            loopvars |= {x.id for st_ in loop.body for x in ast.walk(st_) if isinstance(x, ast.Name) and isinstance(x.ctx, ast.Store)}
+            for inner in [n for st_ in loop.body for n in ast.walk(st_) if isinstance(n, (ast.Lambda, ast.FunctionDef))]:
+                a_ = inner.args
+                own = {x.arg for x in a_.posonlyargs + a_.args + a_.kwonlyargs}
+                body_nodes = [inner.body] if isinstance(inner, ast.Lambda) else inner.body
+                used = {x.id for b_ in body_nodes for x in ast.walk(b_) if isinstance(x, ast.Name) and isinstance(x.ctx, ast.Load)}
+                late = sorted((used & loopvars) - own)
+                if late:
+                    rep.fail("R19b", f"{f_.qualname}: deferred action refers to the loop variable(s) {late}", ctx.where(f_, inner),
+                             f"a function created inside the loop uses {late} when it is *called*, not when it is created: every queued privilege change "
+                             "then acts on the values of the last turn (e.g. the uid is set twice and the gid never)", key=f"R19b|late|{f_.qualname}")
+
     # ------------------------------------------------------------------ R19a
     dropper_set = set(droppers)
     # the droppers themselves are not inlined here: a call to one is the privilege change (their insides are R19b's)
